@@ -1,0 +1,117 @@
+//go:build verif
+
+// Contracts for package hashset (comment-only; read by /verif/engine, never compiled into the package).
+
+package hashset
+
+//@ pred Inv(s) := s != nil && s.items != nil
+//@ -- abstract view: the set of members; Size = number of members (len of the Go map)
+//@ pred Mem(s, x) := has(s.items, x)
+//@ pred Card(s) := len(s.items)
+
+//@ func New
+//@   modifies nothing
+//@   ensures [C04 C13 C15 C17] fresh(result) && Inv(result) && fresh(result.items)
+//@   ensures [C04] forall x like elemof(values) :: Mem(result, x) <==> x in seq(values)
+//@   ensures [C04 C15] len(values) == 0 ==> Card(result) == 0
+
+//@ func Set.Add
+//@   requires Inv(set)
+//@   modifies map(set.items)
+//@   ensures [C04 C17] forall x like elemof(items) :: Mem(set, x) <==> old(Mem(set, x)) || x in seq(items)
+//@   ensures [C04] len(items) == 0 ==> Card(set) == old(Card(set))
+//@   ensures [C04] Card(set) >= old(Card(set)) && Card(set) <= old(Card(set)) + len(items)
+//@   loop 1:
+//@     invariant 0 - 1 <= rangeindex && rangeindex < len(items) && (len(items) == 0 ==> rangeindex == 0 - 1)
+//@     invariant forall x like elemof(items) :: Mem(set, x) <==> old(Mem(set, x)) || (exists j :: 0 <= j && j <= rangeindex && items[j] == x)
+//@     invariant Card(set) >= old(Card(set)) && Card(set) <= old(Card(set)) + rangeindex + 1
+//@     decreases len(items) - rangeindex
+
+//@ func Set.Remove
+//@   requires Inv(set)
+//@   modifies map(set.items)
+//@   ensures [C04 C17] forall x like elemof(items) :: Mem(set, x) <==> old(Mem(set, x)) && !(x in seq(items))
+//@   ensures [C04] Card(set) <= old(Card(set)) && Card(set) >= old(Card(set)) - len(items)
+//@   loop 1:
+//@     invariant 0 - 1 <= rangeindex && rangeindex < len(items) && (len(items) == 0 ==> rangeindex == 0 - 1)
+//@     invariant forall x like elemof(items) :: Mem(set, x) <==> old(Mem(set, x)) && !(exists j :: 0 <= j && j <= rangeindex && items[j] == x)
+//@     invariant Card(set) <= old(Card(set)) && Card(set) >= old(Card(set)) - rangeindex - 1
+//@     decreases len(items) - rangeindex
+
+//@ func Set.Contains
+//@   requires Inv(set)
+//@   modifies nothing
+//@   ensures [C04 C17 C18] result == (forall j :: 0 <= j && j < len(items) ==> Mem(set, items[j]))
+//@   loop 1:
+//@     invariant 0 - 1 <= rangeindex && rangeindex < len(items) && (len(items) == 0 ==> rangeindex == 0 - 1)
+//@     invariant forall j :: 0 <= j && j <= rangeindex ==> Mem(set, items[j])
+//@     decreases len(items) - rangeindex
+
+//@ func Set.Empty
+//@   requires Inv(set)
+//@   modifies nothing
+//@   ensures [C15 C17 C18] result == (Card(set) == 0)
+
+//@ func Set.Size
+//@   requires Inv(set)
+//@   modifies nothing
+//@   ensures [C04 C15 C17 C18] result == Card(set) && result >= 0
+
+//@ func Set.Clear
+//@   requires Inv(set)
+//@   modifies set.items
+//@   ensures [C04 C15 C17] Inv(set) && fresh(set.items) && Card(set) == 0 && (forall x like keyof(set.items) :: !Mem(set, x))
+
+//@ func Set.Values
+//@   requires Inv(set)
+//@   modifies nothing
+//@   ensures [C04 C15 C16 C17 C18] fresh(arr(result)) && len(result) == Card(set)
+//@   ensures [C04] members: forall j :: 0 <= j && j < len(result) ==> Mem(set, result[j])
+//@   ensures [C04] once: forall i, j :: 0 <= i && i < j && j < len(result) ==> result[i] != result[j]
+//@   ensures [C04] all: forall x like keyof(set.items) :: Mem(set, x) ==> x in seq(result)
+//@   loop 1:
+//@     invariant count == nvisited1 && 0 <= count && count <= Card(set) && len(values) == Card(set) && fresh(arr(values))
+//@     invariant forall j :: 0 <= j && j < count ==> visited1[values[j]] && Mem(set, values[j])
+//@     invariant forall i, j :: 0 <= i && i < j && j < count ==> values[i] != values[j]
+//@     invariant forall x like keyof(set.items) :: visited1[x] ==> (exists j :: 0 <= j && j < count && values[j] == x)
+//@     decreases Card(set) - nvisited1
+
+// ---- set algebra (C13): exact, operands unchanged, result shares nothing ----
+
+//@ func Set.Intersection
+//@   requires Inv(set) && Inv(another)
+//@   modifies nothing
+//@   ensures [C13 C17 C18] fresh(result) && Inv(result) && fresh(result.items)
+//@   ensures [C13] forall x like keyof(set.items) :: Mem(result, x) <==> Mem(set, x) && Mem(another, x)
+//@   loop 1:
+//@     invariant fresh(result) && Inv(result) && fresh(result.items)
+//@     invariant forall x like keyof(set.items) :: Mem(result, x) <==> visited1[x] && Mem(set, x) && Mem(another, x)
+//@     decreases Card(set) - nvisited1
+//@   loop 2:
+//@     invariant fresh(result) && Inv(result) && fresh(result.items)
+//@     invariant forall x like keyof(set.items) :: Mem(result, x) <==> visited2[x] && Mem(set, x) && Mem(another, x)
+//@     decreases Card(another) - nvisited2
+
+//@ func Set.Union
+//@   requires Inv(set) && Inv(another)
+//@   modifies nothing
+//@   ensures [C13 C17 C18] fresh(result) && Inv(result) && fresh(result.items)
+//@   ensures [C13] forall x like keyof(set.items) :: Mem(result, x) <==> Mem(set, x) || Mem(another, x)
+//@   loop 1:
+//@     invariant fresh(result) && Inv(result) && fresh(result.items)
+//@     invariant forall x like keyof(set.items) :: Mem(result, x) <==> visited1[x] && Mem(set, x)
+//@     decreases Card(set) - nvisited1
+//@   loop 2:
+//@     invariant fresh(result) && Inv(result) && fresh(result.items)
+//@     invariant forall x like keyof(set.items) :: Mem(result, x) <==> Mem(set, x) || (visited2[x] && Mem(another, x))
+//@     decreases Card(another) - nvisited2
+
+//@ func Set.Difference
+//@   requires Inv(set) && Inv(another)
+//@   modifies nothing
+//@   ensures [C13 C17 C18] fresh(result) && Inv(result) && fresh(result.items)
+//@   ensures [C13] forall x like keyof(set.items) :: Mem(result, x) <==> Mem(set, x) && !Mem(another, x)
+//@   loop 1:
+//@     invariant fresh(result) && Inv(result) && fresh(result.items)
+//@     invariant forall x like keyof(set.items) :: Mem(result, x) <==> visited1[x] && Mem(set, x) && !Mem(another, x)
+//@     decreases Card(set) - nvisited1
